@@ -1,6 +1,7 @@
 // C16 correspondence harness: sqf::fileio::impl_default on a real directory tree.
 // stdin, one case per line (TAB separated):   kind  tree  setup  request  curp  curv
-//   kind    fs | info | loadFile | preprocessFile | preprocessFileLineNumbers | execVM | include
+//   kind    fs | info | infoseq | loadFile | preprocessFile | preprocessFileLineNumbers | execVM | include
+//           | <operator>@file|line|execVM|compile|include  (the operator run by code lying in the file curp; curv: how it is reached)
 //   tree    ';'-separated  F:<hexpath>:<hexcontent> | D:<hexpath>
 //   setup   ';'-separated  M:<hexphys>:<hexvirt> | P:<hexpbopath>:<ignored>:<ignored>
 //   request hex (for `include`: the text given to the preprocessor; for `fs`: a path string, curp = operand of operator/)
@@ -192,6 +193,64 @@ int main(int argc, char** argv)
                 return payload(*out);
             }
             std::string op = kind;
+            if (auto at = kind.find('@'); at != std::string::npos)
+            {
+                // <op>@<route>: the operator is executed by code that lies in a file (curp), reached the way `route` says.
+                //   file     the text `VRES = <op> <request>` parsed as file curp (a file named on the command line)
+                //   line     the same text behind `#line 1 "curp"`, parsed as verif.sqf (what preprocessed text carries)
+                //   execVM   `execVM <curv>` from verif.sqf; curv is a request that names the worker file curp of the tree,
+                //            `|`-separated requests before it name workers that pass on (each started by the one before)
+                //   compile  `call compile preprocessFileLineNumbers <curv>` from verif.sqf
+                //   include  `#include "<curv>"` in the text of verif.sqf
+                // Workers (files of the tree, written by the check) read VOP / VREQ / VHOPS and leave the answer in VRES.
+                op = kind.substr(0, at);
+                const std::string route = kind.substr(at + 1);
+                const bool is_exec = op == "execVM";
+                const std::string direct = is_exec ? ("VRES = \"ran\"; execVM " + sqf_string(req)) : ("VRES = " + op + " " + sqf_string(req));
+                bool loaded = false;
+                if (route == "file") loaded = vm.load(direct, false, curp);
+                else if (route == "line") loaded = vm.load("#line 1 \"" + curp + "\"\n" + direct, false, "verif.sqf");
+                else
+                {
+                    auto hops = split(sub_in(curv), '|');
+                    if (hops.empty()) return "BADKIND";
+                    std::string launch = hops.front(), rest;
+                    for (size_t i = 1; i < hops.size(); i++) rest += (i > 1 ? "," : "") + sqf_string(hops[i]);
+                    const std::string globals = "VOP = " + sqf_string(op) + "; VREQ = " + sqf_string(req) + "; VHOPS = [" + rest + "]; ";
+                    if (route == "execVM") loaded = vm.load(globals + "execVM " + sqf_string(launch), false, "verif.sqf");
+                    else if (route == "compile") loaded = vm.load(globals + "call compile preprocessFileLineNumbers " + sqf_string(launch), false, "verif.sqf");
+                    else if (route == "include")
+                    {
+                        if (!vm.load(globals, false, "verif0.sqf")) return "LOADFAIL";
+                        vm.start();
+                        loaded = vm.load("#include \"" + launch + "\"\n", true, "verif.sqf");
+                    }
+                    else return "BADKIND";
+                }
+                if (loaded) vm.start();
+                const bool nf = has_code(vm.lg, 60036);
+                const bool ppfail = has_code(vm.lg, 10003) || has_code(vm.lg, 10004);
+                const std::string codes = vm.lg.codes(1);
+                auto global = [&](const char* name) -> std::optional<std::string> {
+                    vm.lg.msgs.clear();
+                    if (!vm.load(std::string("if (isNil \"") + name + "\") then {0} else {" + name + "}", false, "verif2.sqf")) return {};
+                    vm.start();
+                    auto v = vm.lg.context_value();
+                    if (!v.has_value() || v->empty() || v->front() != '"') return {};
+                    return unsqf(*v);
+                };
+                auto vres = global("VRES");
+                if (!vres.has_value()) return "NOLAUNCH\t" + codes;         // the code in curp did not get to the operator
+                if (op == "loadFile") return nf ? std::string("NF") : "TEXT\t" + hexo(*vres);
+                if (op == "preprocessFile" || op == "preprocessFileLineNumbers")
+                    return nf ? std::string("NF") : (ppfail ? std::string("PRE\tFAIL") : "PRE\t" + payload(*vres));
+                if (is_exec)
+                {
+                    auto res = global("RES");
+                    return std::string(nf ? "NF" : (ppfail ? "RAN-PPFAIL" : "RAN")) + "\t" + hexo(res.has_value() ? *res : std::string("<unset>")) + "\t" + codes;
+                }
+                return "BADKIND";
+            }
             if (!vm.load(op + " " + sqf_string(req), false, "verif.sqf")) return "LOADFAIL";
             vm.start();
             bool nf = has_code(vm.lg, 60036);
